@@ -34,7 +34,7 @@ PLAIN = ["-O1", "-g1"]
 
 SAN_ENV = {
     "ASAN_OPTIONS": "detect_leaks=1:abort_on_error=0:exitcode=97:allocator_may_return_null=0:detect_stack_use_after_return=1",
-    "UBSAN_OPTIONS": "print_stacktrace=1:halt_on_error=1:exitcode=98",
+    "UBSAN_OPTIONS": "print_stacktrace=1:halt_on_error=1:abort_on_error=1",
     "LSAN_OPTIONS": "exitcode=96",
 }
 
